@@ -2,7 +2,7 @@ package driver
 
 func init() {
 	var quick, thorough []*Job
-	b := "real NewBootstrap/Listen/Async/Sync/Connect/Shutdown/Listener.Close with a mock transport factory whose acceptor blocks until closed; scenario bits: 1 listener started with Async, 2 an inbound connection is offered, 4 a client Connect runs concurrently, 8 the user also calls Listener.Close, 16 an application handler panics during activation and the exception is swallowed; Shutdown runs concurrently with all of it (ALL interleavings); synchronous or queued channels"
+	b := "real NewBootstrap/Listen/Async/Sync/Connect/Shutdown/Listener.Close with a mock transport factory whose acceptor blocks until closed; scenario bits: 1 listener started with Async, 2 an inbound connection is offered, 4 a client Connect runs concurrently, 8 the user also calls Listener.Close, 16 an application handler panics during activation and the exception is swallowed, 32 the id factory repeats an id (second connect refused by the holder); Shutdown runs concurrently with all of it (ALL interleavings); synchronous or queued channels"
 	add := func(list *[]*Job, limit int64, args ...int64) {
 		j := &Job{Pkg: "", Func: "ZZ_C13_Shutdown", Args: args, Bounds: b}
 		if limit > 0 {
@@ -21,6 +21,7 @@ func init() {
 	for _, lf := range []int64{0, 1} {
 		quick = append(quick, &Job{Pkg: "", Func: "ZZ_C13_Relisten", Args: []int64{lf}, Bounds: "a listener closed before its accept loop started, the same address listened on and started again, then the first listener's Async (either order), Shutdown concurrently; ALL interleavings"})
 	}
+	add(&quick, 0, 36, 0) // two connects with the same channel id: the holder refuses the second during activation
 	add(&thorough, 0, 23, 0)
 	add(&thorough, 0, 3, 2)
 	add(&thorough, 0, 5, 2)
